@@ -207,6 +207,11 @@ def run(ctx, host=None):
     else:
         chk.ok(R4, w.qualname, norm(guard)[:100], detail='position check dominates the write; position and hash updated after it')
 
+    # rules of other properties that are necessary conditions of this one too: recovery after a fault assumes packs are append-only and only repack removes pack files (C13)
+    if host is None:
+        from ..report import host_modules
+        host_modules(chk, ctx, ['C13'])
+
     return chk.finish(
         explanation=('Static analysis on control-flow graphs with exception edges from every call/raise/assert to the innermost handler, '
                      'finally, with-exit or exceptional exit: (R2) an error-discipline table over every except clause of the package: no handler '
